@@ -175,7 +175,45 @@ def check_C10(ctx):
     return _coding_check(ctx, 'C10.', 'faithful, total, onto coding; listed vectors; used values')
 
 
-CHECKS = {'C11': check_C11, 'C09': check_C09, 'C10': check_C10, 'C01': check_C01, 'C02': check_C02, 'C03': check_C03, 'C04': check_C04, 'C06': check_C06,
+def _hist_check(ctx, prefix, what):
+    from harness import layer_hist
+    res = runner.memo('hist', ctx, lambda: layer_hist.run(ctx))
+    viol = [{'clause': [c for c in f['fails'] if c[0].startswith(prefix)][0][0], 'where': 'history %s' % json_short(f['hist']),
+             'payload': {'layer': 'hist', 'g': f['g'], 'enc': f['enc'], 'problem': f['problem'], 'hist': f['hist']}}
+            for f in res['fails'] if any(c[0].startswith(prefix) for c in f['fails'])]
+    if not res['mc_ok']:
+        viol.append({'clause': prefix + 'model_configuration_unexpected', 'where': 'ProcessorImpl model checking: contract must hold '
+                     'without the two flaws and each flaw must violate its invariant', 'payload': {'layer': 'none'}})
+    cov = {'states': res['states'] + res['mc_states'], 'transitions': res['transitions'],
+           'traces_validated_against_impl': res['n_traces'], 'samples': res['samples'],
+           'evaluations': res['n_events'], 'distinct_nontrivial': res['nontrivial'],
+           'rule': 'per description a problem (variables, valid rows) is extracted from the real processor; TLC checks '
+                   'ProcessorImpl on it (contract holds without the mask alias / shared cache object, each flaw violates its '
+                   'invariant) and emits one shortest operation sequence per distinct abstract state (depth 3 quick / 4 thorough) '
+                   'over {Decode(x,create), Enumerate, Stats, Fix, Free, Mutate, Pickle}; each is replayed into a long-lived '
+                   'GraphProcessor (complete and fast) with a freshly built twin answering after every observing step, followed '
+                   'by an observation block (all vectors with and without create, enumeration); non-trivial = history of length >= 2',
+           'problems': res['problems'], 'model_checking': res['mc'][:5], 'histories_replayed': res['n_traces'],
+           'clause_counts_before_attribution': res['clause_counts'], 'exhaustive': False, 'what': what}
+    return {'level': 'model_checking', 'coverage': cov, 'violations': viol,
+            'assumptions': ['ProcessorImpl.tla abstracts the correction to "closest valid row"; its role is to generate histories '
+                            'and to show the design-level contract, the verdict on the code comes from the fresh-twin comparison',
+                            'hash-seed variation across processes is exercised under C18', 'TLC, CommunityModules Json']}
+
+
+def json_short(h):
+    return ';'.join('%s%s' % (o['op'], (o['x'] or [o['v'], o['val']]) if o['op'] in ('Decode', 'Fix', 'Free') else '') for o in h)[:160]
+
+
+def check_C05(ctx):
+    return _hist_check(ctx, 'C05.', 'decode is a pure function of (graph, fixed, x); instances independent')
+
+
+def check_C15(ctx):
+    return _hist_check(ctx, 'C15.', 'fix restricts exactly, free restores, bad fixes rejected')
+
+
+CHECKS = {'C05': check_C05, 'C15': check_C15, 'C11': check_C11, 'C09': check_C09, 'C10': check_C10, 'C01': check_C01, 'C02': check_C02, 'C03': check_C03, 'C04': check_C04, 'C06': check_C06,
           'C07': check_C07, 'C14': check_C14, 'C16': check_C16}
 
 
@@ -185,6 +223,11 @@ def replay_payload(payload):
     if layer == 'graph':
         from harness import layer_graph
         return layer_graph.replay(payload['g'])
+    if layer == 'hist':
+        from harness import layer_hist
+        return layer_hist.replay(payload)
+    if layer == 'none':
+        return []
     if layer == 'coding':
         from harness import layer_coding
         return layer_coding.replay(payload)
